@@ -198,7 +198,15 @@ pub mod report {
 
 /// Comment scanners of `comment.rs`.
 pub mod comment {
-    use crate::comment::{CharClasses, FullCodeCharKind, LineClasses};
+    use crate::FormatReport;
+    use crate::comment::{
+        CharClasses, CodeCharKind, CommentCodeSlices, FindUncommented, FullCodeCharKind,
+        LineClasses,
+    };
+    use crate::config::Config;
+    use crate::parse::session::ParseSess;
+    use crate::utils::mk_sp;
+    use crate::visitor::FmtVisitor;
 
     pub(crate) fn kind_letter(k: FullCodeCharKind) -> char {
         match k {
@@ -227,6 +235,126 @@ pub mod comment {
         LineClasses::new(text)
             .map(|(k, l)| (kind_letter(k), l))
             .collect()
+    }
+
+    /// `CommentCodeSlices::new(text)` collected: (is a comment, start, slice).
+    pub fn comment_code_slices(text: &str) -> Vec<(bool, usize, String)> {
+        CommentCodeSlices::new(text)
+            .map(|(kind, start, slice)| (kind == CodeCharKind::Comment, start, slice.to_owned()))
+            .collect()
+    }
+
+    /// `UngroupedCommentCodeSlices::new(text)` collected: (is a comment, start, slice).
+    pub fn ungrouped_slices(text: &str) -> Vec<(bool, usize, String)> {
+        crate::comment::verif_local::ungrouped_slices(text)
+    }
+
+    /// `CommentReducer::new(comment)` collected: the payload characters of one comment.
+    pub fn comment_payload(comment: &str) -> String {
+        crate::comment::verif_local::comment_reducer(comment)
+    }
+
+    /// `changed_comment_content(orig, new)`.
+    pub fn changed_comment_content(orig: &str, new: &str) -> bool {
+        crate::comment::verif_local::changed_comment_content(orig, new)
+    }
+
+    /// `recover_comment_removed(new, span, context)` where `span` covers a source file whose
+    /// text is `snippet` (as normalised by the source map) and `context` comes from a fresh
+    /// visitor: the text returned, the snippet the context saw, and whether a `LostComment`
+    /// error was appended to the report.
+    pub fn recover_comment_removed(
+        new: &str,
+        snippet: &str,
+        error_on_unformatted: bool,
+    ) -> (String, String, bool) {
+        let mut config = Config::default();
+        config.set().error_on_unformatted(error_on_unformatted);
+        config.set().verbose(crate::Verbosity::Quiet);
+        rustc_span::create_session_if_not_set_then(config.edition().into(), |_| {
+            let psess = ParseSess::new(&config).expect("parse session");
+            let file = psess.inner().source_map().new_source_file(
+                rustc_span::FileName::Custom("verif".to_owned()),
+                snippet.to_owned(),
+            );
+            let span = mk_sp(file.start_pos, file.end_position());
+            let provider = psess.snippet_provider(span);
+            let visitor = FmtVisitor::from_psess(&psess, &config, &provider, FormatReport::new());
+            let context = visitor.get_context();
+            let seen = context.snippet(span).to_owned();
+            let res = crate::comment::recover_comment_removed(new.to_owned(), span, &context);
+            let lost = super::report::entries(&context.report)
+                .iter()
+                .any(|e| e.kind == "LostComment");
+            (res, seen, lost)
+        })
+    }
+
+    /// `filter_normal_code(code)`.
+    pub fn filter_normal_code(code: &str) -> String {
+        crate::comment::filter_normal_code(code)
+    }
+
+    /// `s.find_uncommented(pat)`.
+    pub fn find_uncommented(s: &str, pat: &str) -> Option<usize> {
+        s.find_uncommented(pat)
+    }
+
+    /// `s.find_last_uncommented(pat)`.
+    pub fn find_last_uncommented(s: &str, pat: &str) -> Option<usize> {
+        s.find_last_uncommented(pat)
+    }
+
+    /// `find_comment_end(s)`.
+    pub fn find_comment_end(s: &str) -> Option<usize> {
+        crate::comment::find_comment_end(s)
+    }
+
+    /// `contains_comment(text)`.
+    pub fn contains_comment(text: &str) -> bool {
+        crate::comment::contains_comment(text)
+    }
+}
+
+/// The comment string functions of `lists.rs`.
+pub mod lists {
+    use crate::lists::ListItemCommentStyle;
+
+    /// `extract_pre_comment(pre_snippet)`: the comment and `D` (DifferentLine), `S` (SameLine)
+    /// or `N` (None).
+    pub fn extract_pre_comment(pre_snippet: &str) -> (Option<String>, char) {
+        let (c, style) = crate::lists::extract_pre_comment(pre_snippet);
+        let letter = match style {
+            ListItemCommentStyle::DifferentLine => 'D',
+            ListItemCommentStyle::SameLine => 'S',
+            ListItemCommentStyle::None => 'N',
+        };
+        (c, letter)
+    }
+
+    /// `extract_post_comment(post_snippet, comment_end, separator, is_last)`.
+    pub fn extract_post_comment(
+        post_snippet: &str,
+        comment_end: usize,
+        separator: &str,
+        is_last: bool,
+    ) -> Option<String> {
+        crate::lists::extract_post_comment(post_snippet, comment_end, separator, is_last)
+    }
+
+    /// `get_comment_end(post_snippet, separator, terminator, is_last)`.
+    pub fn get_comment_end(
+        post_snippet: &str,
+        separator: &str,
+        terminator: &str,
+        is_last: bool,
+    ) -> usize {
+        crate::lists::get_comment_end(post_snippet, separator, terminator, is_last)
+    }
+
+    /// `has_extra_newline(post_snippet, comment_end)`.
+    pub fn has_extra_newline(post_snippet: &str, comment_end: usize) -> bool {
+        crate::lists::has_extra_newline(post_snippet, comment_end)
     }
 }
 
